@@ -153,7 +153,7 @@ def gen_objects(rnd):
 
 def search(item, seed):
     rnd = random.Random(seed)
-    if "interpolate_object" in item["func"] or "interpolate_state" in item["func"] or "interpolate_quaternion" in item["func"] or item["name"] == "bounded-native-search":
+    if "interpolate_ground_truth_frames" in item["func"] or "interpolate_object" in item["func"] or "interpolate_state" in item["func"] or "interpolate_quaternion" in item["func"] or item["name"] == "bounded-native-search":
         for _ in range(budget(150)):
             case = gen_objects(rnd)
             try:
